@@ -31,12 +31,13 @@ const (
 	KAssertCall // call-site assertion on a callee: "atcall KEY requires EXPR"
 	KReturns    // "returns EXPR": the single result is exactly EXPR (used as a definition at call sites)
 	KGhostSet   // "ghostset VAR TYPE = EXPR [if COND]": ghost assignment performed when the function returns
+	KAtCallSet  // "atcall KEY sets VAR TYPE (callee params and results) :: EXPR [if COND]": ghost assignment after a call made by this function
 	KObserve    // "observe NAME EXPR": a value reported from the solver's model for replay drivers
 	KValInv     // invariant of every value of a struct type stored in a map: "valinv T (v T) :: EXPR"
 )
 
 func (k ClauseKind) String() string {
-	return [...]string{"requires", "ensures", "invariant", "modifies", "cover", "atcall", "returns", "ghostset", "observe", "valinv"}[k]
+	return [...]string{"requires", "ensures", "invariant", "modifies", "cover", "atcall", "returns", "ghostset", "atcallset", "observe", "valinv"}[k]
 }
 
 type Clause struct {
@@ -53,6 +54,7 @@ type Clause struct {
 	Callee    string
 	Overrides string // label of the callee clause this call-site clause replaces
 	Cond      string // ghostset: condition
+	VarType   string // atcall sets: type of the ghost variable
 	Assumed   bool   // "assume": a postcondition of a /repo function that is used at call sites but not verified
 	// Free: skip assumption of this ensures at call sites unless tag selected (unused)
 }
@@ -399,6 +401,22 @@ func parseSpecFile(path string, ps *PkgSpec, trustedFile bool) error {
 				// atcall CALLEEKEY requires EXPR   (expression over the callee's parameters p0.. / named)
 				// atcall KEY requires (params) :: EXPR      additional call-site assertion
 				// atcall KEY overrides LABEL (params) :: EXPR  replaces the callee's clause LABEL at the call sites in this function
+				if si := strings.Index(rest, " sets "); si >= 0 && strings.Index(rest, " requires ") < 0 && strings.Index(rest, " overrides ") < 0 {
+					callee := strings.TrimSpace(rest[:si])
+					r3 := strings.TrimSpace(rest[si+6:])
+					pi := strings.Index(r3, "(")
+					f := strings.Fields(r3[:pi])
+					end := matchParen(r3, pi)
+					params := r3[pi+1 : end]
+					val := strings.TrimSpace(strings.TrimPrefix(strings.TrimSpace(r3[end+1:]), "::"))
+					cond := "true"
+					if ci := topLevelIndex(val, " if "); ci >= 0 {
+						cond = strings.TrimSpace(val[ci+4:])
+						val = strings.TrimSpace(val[:ci])
+					}
+					cur.Clauses = append(cur.Clauses, &Clause{Kind: KAtCallSet, Callee: callee, Label: f[0], VarType: strings.Join(f[1:], " "), Locals: []string{params}, Text: val, Cond: cond, File: path, Line: ln})
+					break
+				}
 				idx := strings.Index(rest, " requires ")
 				overrides := ""
 				skip := 10
@@ -920,6 +938,10 @@ func (ps *PkgSpec) generate(trustedDir string) error {
 				fmt.Fprintf(body, "func %s(%s) bool { return %s }\n", c.GoName, join(params, resDecl), conv(c.Text))
 			case KObserve:
 				fmt.Fprintf(body, "func %s(%s) %s { return %s }\n", c.GoName, join(params, resDecl), c.Callee, conv(c.Text))
+			case KAtCallSet:
+				fmt.Fprintf(body, "func %s(%s) %s { return %s }\n", c.GoName, join(params, c.Locals[0]), c.VarType, conv(c.Text))
+				fmt.Fprintf(body, "func %s_cond(%s) bool { return %s }\n", c.GoName, join(params, c.Locals[0]), conv(c.Cond))
+				fmt.Fprintf(body, "func %s_var() *%s { return &%s }\n", c.GoName, c.VarType, c.Label)
 			case KGhostSet:
 				fmt.Fprintf(body, "func %s(%s) %s { return %s }\n", c.GoName, join(params, resDecl), c.Callee, conv(c.Text))
 				fmt.Fprintf(body, "func %s_cond(%s) bool { return %s }\n", c.GoName, join(params, resDecl), conv(c.Cond))
